@@ -283,7 +283,11 @@ pub fn main(args: &[String]) {
         for _ in 0..npairs {
             let b = rng.pick(&pool).clone();
             // half of the time a close relative of the base (same document, sibling, child, parent)
-            let i = if rng.chance(1, 2) {
+            let i = if rng.chance(1, 6) {
+                // the same document: the base without its query / fragment, with another query and / or fragment
+                let doc = &b[..b.find(['?', '#']).unwrap_or(b.len())];
+                format!("{doc}{}", rng.pick(&["", "#y", "?x", "?x#y", "?", "#"]))
+            } else if rng.chance(1, 2) {
                 let cut = b.char_indices().map(|(i, _)| i).filter(|i| *i > 0).collect::<Vec<_>>();
                 let at = if cut.is_empty() { b.len() } else { *rng.pick(&cut) };
                 let cand = format!("{}{}", &b[..at], rng.pick(&["", "a", "/a", "?x", "#y", "a/b", "é", "a:b", "../a", "//a"]));
